@@ -936,7 +936,7 @@ def replay(ctx, obj):
         for b in obj.get('broken', []):
             print('  ', b.get('what'), str(b.get('detail', b.get('case', '')))[:400])
         return 1
-    if fi.get('kind') in ('pixinfo', 'beam', 'aips', 'psfmap', 'psfmap-nan', 'sky_sep', 'from_file', 'beamarea'):
+    if fi.get('kind') in ('pixinfo', 'beam', 'aips', 'psfmap', 'psfmap-nan', 'psfpix', 'sky_sep', 'from_file', 'beamarea'):
         return c16x.replay_extra(ctx, fi)
     if fi.get('kind') == 'sip-point':
         import warnings
